@@ -227,6 +227,30 @@ def run(pid, tier, seed, replay, t0):
                 idxs = sorted({0, len(cases) // 2, len(cases) - 1})
                 for i in idxs[:2]:
                     samples.append({"section": sec.name, "case": cases[i][1], "impl_obs": C.strip_msg(impl_obs[i])})
+            # L3 inside the section's setup window: the correspondence broke but the oracle is content on the
+            # disagreeing inputs themselves -> search their neighbourhood for an input on which the property fails
+            sec_v = [v for v in violations if v["section"] == sec.name]
+            if sec_v and not any(v["oracle"] for v in sec_v) and sec.variants and sec.oracle:
+                budget = 3000
+                found = None
+                sec_v.sort(key=lambda v: len(C.jdump(v["input"])))
+                for v in sec_v[:50]:
+                    for c2 in sec.variants(v["input"]):
+                        budget -= 1
+                        if budget < 0:
+                            break
+                        io2 = C.guarded(sec.impl, c2)
+                        try:
+                            why2 = sec.oracle(c2, io2)
+                        except Exception as e:
+                            why2 = f"oracle crash {e}"
+                        if why2 and match_known(chk, known, sec, c2, io2) is None:
+                            found = dict(section=sec.name, source="variant-search", input=c2, impl_output=io2, model_output=None, oracle=why2, disagree=False, shrunk_from=v["input"])
+                            break
+                    if found or budget < 0:
+                        break
+                if found:
+                    violations.append(found)
             sec_reports.append(dict(section=sec.name, cases=len(cases), distinct_nontrivial=len(keys), disagreements=n_dis, oracle_failures=n_orc, histogram=dict(sorted(hist.items(), key=lambda kv: str(kv[0]))), rule=sec.rule, exhaustive_part=sec.exhaustive, theorems=sec.theorems, impl_s=round(t_impl, 2), model_s=round(t_model, 2)))
         finally:
             if sec.teardown:
@@ -244,29 +268,6 @@ def run(pid, tier, seed, replay, t0):
         sec = next(s for s in chk.sections if s.name == sname)
         with_input = [v for v in vs if v["oracle"]]
         only_dis = [v for v in vs if not v["oracle"]]
-        if not with_input and only_dis:
-            # L3: the correspondence broke but the oracle is content on the disagreeing inputs themselves:
-            # search their neighbourhood (variants) for an input on which the property fails
-            found = None
-            if sec.variants and sec.oracle:
-                budget = 3000
-                for v in only_dis[:50]:
-                    for c2 in sec.variants(v["input"]):
-                        budget -= 1
-                        if budget < 0:
-                            break
-                        io2 = C.guarded(sec.impl, c2)
-                        try:
-                            why2 = sec.oracle(c2, io2)
-                        except Exception as e:
-                            why2 = f"oracle crash {e}"
-                        if why2 and match_known(chk, known, sec, c2, io2) is None:
-                            found = dict(section=sname, source="variant-search", input=c2, impl_output=io2, model_output=None, oracle=why2, disagree=False, shrunk_from=v["input"])
-                            break
-                    if found or budget < 0:
-                        break
-            if found:
-                with_input = [found]
         if with_input:
             with_input.sort(key=lambda v: len(C.jdump(v["input"])))
             for v in with_input[:2]:
